@@ -15,6 +15,15 @@
    "the rest of the contents from row r0"; `[]` marks the Iei / Len scalars kept outside the contents."""
 import json, os, re, subprocess, sys
 
+# Accessor pairs that carry no annotation in the source (5 of 742).  Their position is taken from TS 24.501 and the
+# package's own convention for the same IE formats: type 4 IEs keep the IEI and length octets in the Iei / Len
+# scalars (9.11.4.21, 9.11.3.59); a type 1 IE has its IEI in bits 8-5 of its only octet (9.11.3.36A).
+SUPPLEMENT = {
+    ("CongestionReattemptIndicator5GSM", "Iei"): ("", "", 8, "8"), ("CongestionReattemptIndicator5GSM", "Len"): ("", "", 8, "8"),
+    ("EPSBearerContextStatus", "Iei"): ("", "", 8, "8"), ("EPSBearerContextStatus", "Len"): ("", "", 8, "8"),
+    ("Non3GppNwPolicies", "Iei"): ("0", "0", 8, "4"),
+}
+
 ANN = re.compile(r"^//\s*(\w+)\s+Row, sBit, len = \[\s*(\d*)\s*,?\s*(\d*)\s*\]\s*,\s*(\d+)\s*,\s*(\w+)\s*$")
 SEC = re.compile(r"^//\s*(\w+)\s+([0-9A-Za-z.]+)\s*$")
 FUNC = re.compile(r"^func \(a \*(\w+)\) (Get|Set)(\w+)\((.*?)\)\s*(.*?)\s*\{\s*$")
@@ -62,13 +71,19 @@ def main(repo, out):
                     if s and s.group(1) == tn:
                         sec = s.group(2)
                     j -= 1
-                if ann:
+                supp = None
+                if not ann and (tn, field) in SUPPLEMENT:
+                    supp = SUPPLEMENT[(tn, field)]
+                if ann or supp:
                     t = types.setdefault(tn, dict(type=tn, file=fn, section="", struct={}, fields={}))
                     if sec:
                         t["section"] = sec
                     f = t["fields"].setdefault(field, dict(name=field))
-                    r0, r1, sb, n = ann.group(2), ann.group(3), int(ann.group(4)), ann.group(5)
-                    rec = dict(annot=ann.group(1), r0=(int(r0) if r0 != "" else -1), r1=(int(r1) if r1 != "" else -1),
+                    if ann:
+                        aname, r0, r1, sb, n = ann.group(1), ann.group(2), ann.group(3), int(ann.group(4)), ann.group(5)
+                    else:
+                        aname, (r0, r1, sb, n) = field + " (supplement)", supp
+                    rec = dict(annot=aname, r0=(int(r0) if r0 != "" else -1), r1=(int(r1) if r1 != "" else -1),
                                sbit=sb, n=(-1 if n == "INF" else int(n)))
                     key = "gann" if gs == "Get" else "sann"
                     f[key] = rec
